@@ -81,6 +81,21 @@ PROPS = {
         "level_note": VERUS_TRUST + "shim: str < str is byte-wise lexicographic (assumed std contract); contracts of DeweyVersion::new, dewey_cmp, "
                       "PkgName::new/pkgversion imported from the units that prove them (run in the same check). Reduction lemma is stated over matching candidates.",
     },
+    "C07": {
+        "units": ["summary"],
+        "design_ref": "DESIGN.md section 8 / C07",
+        "replay": "summary",
+        "level_text": "Unbounded proof on the real functions: `impl Display for Summary` writes exactly render(view): one 'VAR=value' line per "
+                      "value, variables in the fixed pkg_summary order - a function of the current values only, which is history "
+                      "independence, because every setter/pusher is proved to produce view == old view updated at its own key; "
+                      "`impl Display for SummaryVariable` is the 23-name table and lemma_name_roundtrip proves parse(print(v)) == v with no "
+                      "'=' or line break in a name. The two round-trip compositions parse_entry(render(m)) == m and render(parse_entry(t)) == t "
+                      "are NOT yet lemmas: they are checked by the bounded search of the replay crate (labelled bounded).",
+        "level_note": VERUS_TRUST + "Formatter output modelled by an uninterpreted fout(); shims: Formatter::write_str, Display for i64 (text "
+                      "assumed to re-parse to the same value), and shim_sorted_entries: copying the HashMap into a BTreeMap<&K,&V> and iterating it "
+                      "yields every pair once in the derived (declaration) order of the key enum; writeln!(f, \"{}={}\", k, v) replaced by a helper "
+                      "verified in the unit that calls the pieces in format_args! order (D8).",
+    },
     "C08": {
         "units": ["summary"],
         "design_ref": "DESIGN.md section 8 / C08",
